@@ -37,6 +37,10 @@ type Work struct {
 	// On names the module whose event the hook listens on (Kind "hook"
 	// only; empty = own module).
 	On string `json:"on,omitempty"`
+	// Fail makes the first run return a plain error (service workers then go into their back-off wait of
+	// BackoffMS milliseconds before they are run again).
+	Fail      bool `json:"fail,omitempty"`
+	BackoffMS int  `json:"backoff_ms,omitempty"`
 }
 
 // WorkKinds lists the supported kinds of managed work.
